@@ -79,7 +79,12 @@ pub fn run_edge(case: &Value, _seed: u64) -> Outcome {
                 "remove" => model.retain(|(kk, _)| *kk != k),
                 _ => {}
             }
-            let r = guarded(&format!("lossy::Paragraph::{}", name), || match name { "set" => p.set(&k, &v), "insert" => p.insert(&k, &v), _ => p.remove(&k) });
+            // (odd concretisations call set / remove / get through the paragraph trait of src/convert.rs)
+            let via_trait = map % 2 == 1;
+            let r = guarded(&format!("lossy::Paragraph::{}", name), || match name {
+                "set" => if via_trait { <Paragraph as deb822_lossless::convert::Deb822LikeParagraph>::set(&mut p, &k, &v) } else { p.set(&k, &v) },
+                "insert" => p.insert(&k, &v),
+                _ => if via_trait { <Paragraph as deb822_lossless::convert::Deb822LikeParagraph>::remove(&mut p, &k) } else { p.remove(&k) } });
             if let Err(m) = r { o.v("C08", "list_model", &format!("lossy::Paragraph::{}", name), "panic", &feats, "", m); break; }
             if real_fields(&p) != model {
                 o.v("C08", "list_model", &format!("lossy::Paragraph::{}", name), "mismatch", &feats, &format!("{:?}", real_fields(&p)), format!("list model {:?}", model));
